@@ -23,6 +23,12 @@ type Op struct {
 	M   refjson.EncOp
 	Tok jsontext.Token
 	ME  *meValue // if set: json.MarshalEncode(enc, ME.v) instead of WriteValue (the model sees the raw text M.Text)
+	AV  bool     // if set: the raw text is built in Encoder.AvailableBuffer() and passed to WriteValue from there
+}
+
+// av builds an op that writes a raw value assembled in the Encoder's AvailableBuffer (the documented zero-copy idiom).
+func av(text string) Op {
+	return Op{M: refjson.EncOp{Raw: true, Text: text, Label: "AV:" + text}, AV: true}
 }
 
 type meValue struct{ v any }
@@ -41,6 +47,7 @@ func meOps() []Op {
 		me("[]any{}", []any{}, "[]"), me("map[string]any{}", map[string]any{}, "{}"), me("[]int{}", []int{}, "[]"), me("map[string]int{}", map[string]int{}, "{}"),
 		me("any([]any{})", any([]any{}), "[]"), me(`"s"`, "s", `"s"`), me("nil", nil, "null"), me("[]any{1}", []any{1.0}, "[1]"), me("struct{}", struct{}{}, "{}"),
 		me(`map[string]any{"a":[]}`, map[string]any{"a": []any{}}, `{"a":[]}`),
+		av(`"k"`), av(`"needs < escaping \u0041"`), av(` [ 1 , {"b" : 2 , "a" : [ ] } ] `), av(`{"a":1,"a":2}`), av(`[1,`), av(`"` + strings.Repeat("long", 40) + `"`),
 	}
 }
 
@@ -139,6 +146,11 @@ func (s *sys) reset(o *OptSet) {
 func (s *sys) apply(op *Op) error {
 	if op.ME != nil {
 		return jsonv2.MarshalEncode(s.enc, op.ME.v)
+	}
+	if op.AV {
+		b := s.enc.AvailableBuffer()
+		b = append(b, op.M.Text...)
+		return s.enc.WriteValue(b)
 	}
 	if op.M.Raw {
 		return s.enc.WriteValue(jsontext.Value(op.M.Text))
